@@ -273,4 +273,36 @@ theorem substitution_conv (pl : Placed out child Lp E) (Tc SK T : P → P → F)
     obtain ⟨a, b, hab, hv⟩ := hT.2 v
     exact ⟨a, b, parent_sol_of_inlined pl Tc SK hTc hSK a b hab, hv⟩
 
+
+/-- the network equations only depend on *which* parts, links and exposed pins there are -/
+theorem sol_of_same (N N' : ANet P F) (hp : ∀ part, part ∈ N.parts ↔ part ∈ N'.parts)
+    (hl : ∀ l, l ∈ N.links ↔ l ∈ N'.links) (he : ∀ e, e ∈ N.exposed ↔ e ∈ N'.exposed)
+    (a b : P → F) (h : N.Sol a b) : N'.Sol a b := by
+  refine ⟨fun part hpart => h.comp part ((hp part).2 hpart), fun l hl' => h.link l ((hl l).2 hl'), ?_⟩
+  intro part hpart p hpp hfree hne
+  apply h.free part ((hp part).2 hpart) p hpp
+  · intro q hq
+    apply hfree q
+    rcases hq with hq | hq
+    · exact Or.inl ((hl _).1 hq)
+    · exact Or.inr ((hl _).1 hq)
+  · intro hin; exact hne ((he p).1 hin)
+
+/-- **two sub-networks side by side**: every solution of the whole network is a solution of the two-component network
+in which each side is replaced by its solution operator — with the *same* waves on every exposed pin of either side,
+in particular on the links between the two sides -/
+theorem pair_sol_of_whole (mainNet monNet : ANet P F) (links : List (P × P)) (E : List P) (TA TB : P → P → F)
+    (hA : mainNet.SolvedBy TA) (hB : monNet.SolvedBy TB)
+    (plB : Placed mainNet.parts monNet (links ++ mainNet.links) E)
+    (plA : Placed [(monNet.exposed, TB)] mainNet links E)
+    (a b : P → F) (h : (inlined mainNet.parts monNet (links ++ mainNet.links) E).Sol a b) :
+    (parent [(monNet.exposed, TB)] mainNet TA links E).Sol a b := by
+  have h1 := parent_sol_of_inlined plB TB TB hB (fun _ _ _ _ => rfl) a b h
+  have h2 : (inlined [(monNet.exposed, TB)] mainNet links E).Sol a b := by
+    apply sol_of_same _ _ _ _ _ a b h1
+    · intro part; simp [parent, inlined, or_comm]
+    · intro l; rfl
+    · intro e; rfl
+  exact parent_sol_of_inlined plA TA TA hA (fun _ _ _ _ => rfl) a b h2
+
 end ANet
